@@ -190,6 +190,26 @@ func (a *Authority) NewPreIssuer(name string, o CAOptions) *Authority {
 	return p
 }
 
+// CrossSignedBy mints another certificate for a's name and key, issued by `by`
+// (a CA of another hierarchy): chains through it are alternative paths for the
+// certificates a issued. The result's Parent is `by`.
+func (a *Authority) CrossSignedBy(by *Authority) *Authority {
+	t := &x509.Certificate{
+		SerialNumber:          nextSerial(),
+		Subject:               a.Cert.Subject,
+		NotBefore:             a.Cert.NotBefore,
+		NotAfter:              a.Cert.NotAfter,
+		KeyUsage:              a.Cert.KeyUsage,
+		BasicConstraintsValid: true,
+		IsCA:                  true,
+		ExtKeyUsage:           a.Cert.ExtKeyUsage,
+		UnknownExtKeyUsage:    a.Cert.UnknownExtKeyUsage,
+		SubjectKeyId:          a.Cert.SubjectKeyId,
+	}
+	c, der := mustCreate(t, by.Cert, a.Key.Public(), by.Key)
+	return &Authority{Name: a.Name, Cert: c, DER: der, Key: a.Key, Parent: by, PreIssuer: a.PreIssuer}
+}
+
 // Root returns the root of a's hierarchy.
 func (a *Authority) Root() *Authority {
 	for a.Parent != nil {
